@@ -131,7 +131,14 @@ std::string do_fill(World& w, const std::vector<std::string>& t) {
   switch (e.kind) {
     case KProg: fill_AudioProgramme(*e.prog, rng); break;
     case KCont: fill_AudioContent(*e.cont, rng); break;
-    case KObj: fill_AudioObject(*e.obj, rng); break;
+    case KObj: {
+      fill_AudioObject(*e.obj, rng);
+      // the position offset is a variant parameter outside the generated tables
+      unsigned k = rnd(rng, 4);
+      if (k == 0) { if (auto v = Gen<CartesianPositionOffset>::make(rng)) e.obj->set(*v); }
+      else if (k == 1) { if (auto v = Gen<SphericalPositionOffset>::make(rng)) e.obj->set(*v); }
+      break;
+    }
     case KPack: {
       fill_AudioPackFormat(*e.pack, rng);
       if (auto hoa = std::dynamic_pointer_cast<AudioPackFormatHoa>(e.pack)) fill_AudioPackFormatHoa(*hoa, rng);
@@ -151,7 +158,15 @@ std::string do_fillblock(World& w, const std::vector<std::string>& t) {
   Rng rng(static_cast<unsigned>(std::stoul(t.at(3))));
   Rtime rt(std::chrono::nanoseconds(static_cast<long long>(std::stoull(t.at(4)))));
   switch (ty) {
-    case 1: { AudioBlockFormatDirectSpeakers b; fill_AudioBlockFormatDirectSpeakers(b, rng); b.set(rt); e.chan->add(b); break; }
+    case 1: {
+      AudioBlockFormatDirectSpeakers b;
+      fill_AudioBlockFormatDirectSpeakers(b, rng);
+      unsigned nl = rnd(rng, 3);
+      for (unsigned i = 0; i < nl; ++i) b.add(SpeakerLabel(RawGen<std::string>::make(rng)));
+      b.set(rt);
+      e.chan->add(b);
+      break;
+    }
     case 2: { AudioBlockFormatMatrix b; fill_AudioBlockFormatMatrix(b, rng); b.set(rt); e.chan->add(b); break; }
     case 3: { AudioBlockFormatObjects b{SphericalPosition()}; fill_AudioBlockFormatObjects(b, rng); b.set(rt); e.chan->add(b); break; }
     case 4: { AudioBlockFormatHoa b{Order(1), Degree(1)}; fill_AudioBlockFormatHoa(b, rng); b.set(rt); e.chan->add(b); break; }
